@@ -7,6 +7,7 @@ ENGINES = [
     {"name": "E2 explore", "path": "engine/explore", "serves_properties": ["C01","C02","C03","C04","C05","C06","C11","C12","C13"], "kind_free_text": "explicit-state depth/deviation-bounded DFS with canonical store hashing, 16 workers, sequential-replay confirmation"},
 ]
 NOT_CLAIMED = {}
+ENGINES.append({"name": "E3 enum", "path": "checks/msgdom.go", "serves_properties": ["C14","C16","C17","C18"], "kind_free_text": "bounded-exhaustive input products (full Cartesian product or every combination of <= k non-default classes), minimal failing set reporting"})
 MC = "model_checking"
 claim("C01", MC, "explicit-state DFS over real DeliverTx + reference append-only log", "DESIGN.md §3 C01",
       "Every AOL transaction sequence up to the completed depth/deviation bound over a colliding 2-owner/2-topic alphabet (plus next-block, restart, export/import) is executed on the real app; reported offsets, every acknowledged record's query answer and the raw record store are compared with a reference append-only log on every transition and every distinct state.",
@@ -37,3 +38,14 @@ claim("C06", MC, "explicit-state DFS over real PNFT handlers + reference ownersh
 claim("C12", MC, "explicit-state DFS + full query matrix per distinct state against the reference model", "DESIGN.md §3 C12",
       "PNFT graph with the identifier alphabet widened to prefixes and the x/nft key delimiter (d, dd, d\\0x / t, tt, x\\0t); in every distinct state: PNFT(denom,id) over alphabet x alphabet, PNFTs, PNFTsByDenomOwner x accounts, Denom, Denoms under the full pagination matrix and DenomsByOwner x accounts are compared with the reference model; token metadata immutable; no orphan tokens.",
       "Identifier alphabet of 3 denoms x 3 token ids.", "E1+E2")
+
+EX = "exploration"
+claim("C18", EX, "exhaustive enumeration of tuple/byte-string domains; all-pairs prefix property decided by counting byte-prefix ranges", "DESIGN.md §3 C18",
+      "All tuples of 0..4 components over a length-byte alphabet (component length <= 2): round trip, injectivity, and prefix-exactness for all ordered pairs and all k; every component length 0..255 (256+ for rejection); every byte string up to length 5 (7 thorough) over {0,1,2,3,255} offered to the decoder; the four typed AOL keys over address lengths 1/20/21/255, all topic names up to length 2 plus 69/70-byte names, boundary offsets, binary and string forms; every typed decoder over a component menu.",
+      "All-pairs part bounded to component length <= 2 over a 4-byte (5 thorough) alphabet.", "E3")
+claim("C16", EX, "exhaustive product of per-field boundary classes vs hand-written reference validator, plus delivery of rejected messages to the real chain", "DESIGN.md §3 C16",
+      "For each of the 14 message types the product of per-field boundary classes (full product or every combination of <= 3/4 non-default classes): ValidateBasic()==nil iff the reference validator written from the published limits accepts; reference-rejected messages (<= 2 non-default fields) are signed by the actor they name and delivered to a populated chain: refused, stores unchanged.",
+      "Ambiguous inputs (vertical tab/Unicode spaces in method ids, controller field, absent @context) are left out of the alphabet.", "E3+E1")
+claim("C17", EX, "exhaustive shape products for messages, queries and key-store files under recover / ABCI code 111222; minimal failing sets", "DESIGN.md §3 C17",
+      "Every message type x every combination of <= 2/3 hostile field shapes: ValidateBasic, GetSigners, GetSignBytes, DeliverTx in three base states; every query type x request-shape product through BaseApp.Query and on the keeper in four states (incl. odd-length owners); key-store file product (version/cipher/kdf/prf/mac/iv/ciphertext/salt/c/dklen x password, MAC made valid where possible) through the real KeyStore.Load; no panic anywhere. EndBlock totality is covered in C07's graph.",
+      "Requests are built as Go values and marshalled; wire-level garbage is the codec's business.", "E3+E1")
